@@ -71,6 +71,7 @@ type scriptWriter struct {
 	lastFault  error  // the error of the most recent fault
 	lens       *[]int // lengths offered by all writer calls of the case
 	stuck      bool   // a Forever event has produced a fault
+	checked    int    // prefix of got that has been compared with the reference expansion
 }
 
 func (w *scriptWriter) beginCall() { w.calls, w.emptyRun = 0, 0 }
@@ -147,6 +148,25 @@ type DecCase struct {
 	Cfg     DCfg     `json:"cfg"`
 	Writer  []WEvent `json:"writer,omitempty"`
 	Ops     []DOp    `json:"ops"`
+	// PreCap (dbuf): the caller hands in an array of this capacity in
+	// DecoderBuffer.Data before Init (the buffer makes use of it).
+	PreCap int64 `json:"preCap,omitempty"`
+}
+
+// hugeArray is the one array behind all caller-supplied arrays of more than a
+// MiB (up to 2^33 bytes and a little): it is never touched beyond the first
+// pages, so it costs address space only; allocating and clearing a new one for
+// every case would cost seconds.
+var hugeArray []byte
+
+func preCapSlice(n int64) []byte {
+	if n <= 1<<20 {
+		return make([]byte, 0, n)
+	}
+	if int64(cap(hugeArray)) < n {
+		hugeArray = make([]byte, 0, maxInt(int(n), 1<<33+8192))
+	}
+	return hugeArray[:0:n]
 }
 
 type decExec struct {
@@ -190,6 +210,7 @@ type decExec struct {
 	haveErr           bool
 	callLens          []int
 	stuckEnd          bool // the history ended at a writer that fails for good
+	relCalls          int
 }
 
 func (x *decExec) report(prop, format string, a ...any) {
@@ -233,6 +254,9 @@ func newDecExec(c DecCase) (*decExec, error) {
 		switch c.Vehicle {
 		case "dbuf":
 			x.buf = new(lz.DecoderBuffer)
+			if c.PreCap > 0 {
+				x.buf.Data = preCapSlice(c.PreCap)
+			}
 			err = x.buf.Init(cfg)
 		case "dec":
 			x.wr = &scriptWriter{events: append([]WEvent(nil), c.Writer...), lens: &x.callLens}
@@ -292,6 +316,7 @@ func (x *decExec) guard(what string, f func()) (panicked bool) {
 			panicked = true
 			x.report("C05", "%s panicked: %v", what, r)
 			x.report("C04", "%s panicked: %v", what, r)
+			x.report("C07", "%s panicked: %v", what, r)
 			x.dead = true
 		}
 	}()
@@ -345,7 +370,16 @@ func (x *decExec) relations(what string, st bufState, rejecting bool) {
 		x.dead = true
 		return
 	}
-	if len(b.Data) > len(x.all) || !bytesEqual(b.Data, x.all[len(x.all)-len(b.Data):]) {
+	// Buffers beyond 64 KiB in long histories: when the call did not discard
+	// anything, only what it appended (and 64 bytes in front) is compared,
+	// and everything on every 64th call - and whenever bytes were discarded.
+	from := 0
+	x.relCalls++
+	if len(b.Data) > 1<<16 && x.relCalls%64 != 0 && what != "Reset" &&
+		len(b.Data) == st.lenData+(len(x.all)-st.allLen) && st.lenData >= 64 {
+		from = st.lenData - 64
+	}
+	if len(b.Data) > len(x.all) || !bytesEqual(b.Data[from:], x.all[len(x.all)-len(b.Data)+from:]) {
 		x.reportAll(props, "%s: buffer content (%d bytes) is not the tail of the reference expansion (%d bytes) of what was reported as consumed",
 			what, len(b.Data), len(x.all))
 		x.dead = true
@@ -419,6 +453,18 @@ func (x *decExec) apply(op DOp) {
 		x.faultsSeen = x.wr.faults
 		x.haveErr = false
 	}
+	if x.c.PreCap > 1<<26 {
+		// An array of gigabytes takes matches of gigabytes; the model does
+		// not expand more than 64 MiB, and writing them would cost seconds
+		// and memory: such operations are left out on these arrays.
+		big := op.M > 1<<26
+		for _, q := range op.Seqs {
+			big = big || q.MatchLen > 1<<26
+		}
+		if big {
+			return
+		}
+	}
 	switch op.Op {
 	case "wbyte":
 		x.doWriteByte(op)
@@ -469,7 +515,11 @@ func (x *decExec) afterCall(what string) {
 			what, x.wr.faults-x.faultsSeen, x.lastErr)
 	}
 	got := x.wr.got
-	if len(got) > len(x.all) || !bytesEqual(got, x.all[:len(got)]) {
+	// what was compared after earlier calls is not compared again
+	from := minInt(x.wr.checked, len(got))
+	if len(got) <= len(x.all) && bytesEqual(got[from:], x.all[from:len(got)]) {
+		x.wr.checked = len(got)
+	} else {
 		x.report("C18", "%s: the writer has accepted %d bytes that are not a prefix of the reference expansion (%d bytes)", what, len(got), len(x.all))
 		x.report("C04", "%s: the writer has received %d bytes that are not a prefix of the reference expansion (%d bytes)", what, len(got), len(x.all))
 		x.dead = true
@@ -915,6 +965,9 @@ func (x *decExec) doReset() {
 		x.relations("Reset", st, false)
 		if len(x.buf.Data) != 0 || x.buf.R != 0 {
 			x.report("C04", "after Reset: len(Data)=%d, R=%d", len(x.buf.Data), x.buf.R)
+		}
+		if x.buf.Off != 0 {
+			x.report("C17", "after Reset: Off=%d, nothing has been written since", x.buf.Off)
 		}
 		return
 	}
